@@ -30,17 +30,61 @@ def _strides(shape):
 
 
 class Tensor:
-    __slots__ = ('shape', 'els', 'requires_grad', 'is_param', 'grad', 'name', '_base')
+    __slots__ = ('shape', '_els', 'requires_grad', 'is_param', 'grad', 'name', '_base')
 
     def __init__(self, shape, els, requires_grad=False, is_param=False):
         self.shape = tuple(int(s) for s in shape)
-        self.els = list(els)
-        if len(self.els) != _prod(self.shape):
-            raise Unsupported(f'tensor shape {self.shape} does not match {len(self.els)} elements')
+        self._base = None
+        self._els = list(els)
+        if len(self._els) != _prod(self.shape):
+            raise Unsupported(f'tensor shape {self.shape} does not match {len(self._els)} elements')
         self.requires_grad = requires_grad
         self.is_param = is_param
         self.grad = None
         self.name = None
+
+    # storage: a tensor obtained by basic indexing (ints / slices) is a *view*: reads go to, and in-place writes through to,
+    # the root tensor (torch semantics of  t[i].fill_(v),  t.data[i] = v ...)
+    @property
+    def els(self):
+        b = self._base
+        if b is None:
+            return self._els
+        root, offs = b
+        r = root._els
+        return [r[o] for o in offs]
+
+    @els.setter
+    def els(self, v):
+        b = self._base
+        if b is None:
+            self._els = v if isinstance(v, list) else list(v)
+            return
+        root, offs = b
+        v = list(v)
+        if len(v) != len(offs):
+            self._base = None            # shape-changing assignment detaches the view
+            self._els = v
+            return
+        r = root._els
+        for o, x in zip(offs, v):
+            r[o] = x
+
+    @staticmethod
+    def _view(root, shape, offs):
+        t = Tensor.__new__(Tensor)
+        t.shape = tuple(shape)
+        while root._base is not None:          # views of views address the root
+            rr, ro = root._base
+            offs = [ro[o] for o in offs]
+            root = rr
+        t._base = (root, list(offs))
+        t._els = None
+        t.requires_grad = root.requires_grad
+        t.is_param = False
+        t.grad = None
+        t.name = None
+        return t
 
     # ---------------------------------------------------------------- construction
     @staticmethod
@@ -113,6 +157,8 @@ class Tensor:
     @data.setter
     def data(self, v):
         v = Tensor.from_nested(v) if not isinstance(v, Tensor) else v
+        if v.shape != self.shape:
+            self._base = None
         self.shape = v.shape
         self.els = list(v.els)
 
@@ -613,6 +659,16 @@ class Tensor:
 
     def __getitem__(self, key):
         key = self._norm_key(key)
+        key = tuple((k.item() if (isinstance(k, Tensor) and k.shape == () and not _is_boolish(k)) else k) for k in key)
+        key = tuple((concretize_int(k) if is_sym(k) else k) for k in key)
+        if all((isinstance(k, int) and not isinstance(k, bool)) or k is None or
+               (isinstance(k, slice) and all(x is None or (isinstance(x, int) and not isinstance(x, bool)) for x in (k.start, k.stop, k.step)))
+               for k in key):
+            offs = Tensor(self.shape, list(range(_prod(self.shape))))._getitem_copy(key)
+            return Tensor._view(self, offs.shape, offs._els)
+        return self._getitem_copy(key)
+
+    def _getitem_copy(self, key):
         t = self
         dim = 0
         for k in key:
@@ -674,13 +730,15 @@ class Tensor:
     def __setitem__(self, key, value):
         key = self._norm_key(key)
         # compute the flat offsets addressed by the key by indexing a tensor of offsets
-        offs = Tensor(self.shape, list(range(len(self.els))))[key if len(key) != 1 else key[0]]
+        offs = Tensor(self.shape, list(range(len(self.els))))._getitem_copy(self._norm_key(key))
         if isinstance(value, Tensor):
             v = value.expand_to(offs.shape).els if value.shape != offs.shape else value.els
         else:
             v = [value] * len(offs.els)
+        cur = list(self.els)
         for o, x in zip(offs.els, v):
-            self.els[o] = x
+            cur[o] = x
+        self.els = cur
 
     # ---------------------------------------------------------------- python protocol used by host-side helpers
     def __int__(self):
